@@ -68,6 +68,16 @@ type tunnelCase struct {
 	// close option next to Upgrade (token order / spelling / several field lines), are sent as HTTP/1.0, or carry
 	// keep-alive next to Upgrade
 	UpgradeReq int `json:"upgrade_req,omitempty"`
+	// How the END of a stream reaches the proxy (eos.go). UpTail / DownTail: that many of the LAST bytes the
+	// client / the far end sends are written in one piece and followed AT ONCE by the half-close; where the
+	// endpoint speaks TLS through a corked connection (TLS listener; the far TLS peers of a t12- configuration)
+	// the final record(s) and close_notify leave in ONE segment, so that under TLS 1.2 the proxy's Read of that
+	// leg returns the last bytes together with io.EOF. UpGapMs / DownGapMs: the half-close follows the last
+	// byte only after that pause (end-of-stream arrives in a Read of its own).
+	UpTail    int `json:"up_tail,omitempty"`
+	DownTail  int `json:"down_tail,omitempty"`
+	UpGapMs   int `json:"up_gap_ms,omitempty"`
+	DownGapMs int `json:"down_gap_ms,omitempty"`
 }
 
 // upgradeReq is one way to ask for a protocol switch. closes: http.ReadRequest sets Request.Close for it (the
@@ -201,6 +211,8 @@ type tunnelObs struct {
 	ClientHeadSent string `json:"client_request"`
 	replySent      []byte
 	sentPre        int
+	// the Read calls of a scripted source leg (eos.go), as the proxy saw them
+	upReads, downReads []readRec
 }
 
 // headPieces cuts the block head+early into the writes the case asks for.
@@ -407,7 +419,8 @@ func (e *env) runTunnel(tc *tunnelCase, stall, limit time.Duration) *tunnelObs {
 	defer func() { conn.Close() }()
 	if e.spec.tlsListener {
 		// TLS first (the listener's certificate is self-signed), then the request
-		tconn := tls.Client(tcpConn, &tls.Config{InsecureSkipVerify: true})
+		// corked: the client decides which records share a segment (the last ones and close_notify, see UpTail)
+		tconn := tls.Client(&corkConn{Conn: tcpConn}, &tls.Config{InsecureSkipVerify: true, MaxVersion: e.tlsMax()})
 		tconn.SetDeadline(time.Now().Add(20 * time.Second))
 		if err := tconn.Handshake(); err != nil {
 			obs.Error = "TLS handshake with the proxy's listener: " + errKind(err)
@@ -553,31 +566,34 @@ func (e *env) runTunnel(tc *tunnelCase, stall, limit time.Duration) *tunnelObs {
 				return
 			}
 		}
-		n, err = writeSegs(conn, up[early:tc.Up1], tc.UpSegs, tc.Pause, tick)
-		upSent += n
-		if err != nil {
-			obs.Up.WriteErr = errKind(err)
-			return
-		}
+		last, lastPause := up[early:tc.Up1], tc.Pause // the bytes the half-close follows
 		if tc.Order == "target-first" {
+			n, err = writeSegs(conn, last, tc.UpSegs, tc.Pause, tick)
+			upSent += n
+			if err != nil {
+				obs.Up.WriteErr = errKind(err)
+				return
+			}
 			if !waitFor(clientEOF) {
 				return
 			}
 			if tc.HoldMs > 0 {
 				holdFor(time.Duration(tc.HoldMs)*time.Millisecond, tick)
 			}
-			n, err = writeSegs(conn, up[tc.Up1:], tc.UpSegs, false, tick)
-			upSent += n
-			obs.Up.AfterEOF = n
-			if err != nil {
-				obs.Up.WriteErr = errKind(err)
-				return
-			}
+			last, lastPause = up[tc.Up1:], false
 		}
 		// TCP: FIN; TLS listener: close_notify, which the proxy's Read reports as end-of-stream
-		obs.Up.finAt = time.Now()
-		if err := conn.(interface{ CloseWrite() error }).CloseWrite(); err != nil {
-			obs.Up.WriteErr = "closewrite: " + errKind(err)
+		n, inCW, err := writeLast(conn, last, tc.UpSegs, lastPause, tick, tc.UpTail, tc.UpGapMs, &obs.Up.finAt,
+			conn.(interface{ CloseWrite() error }).CloseWrite)
+		upSent += n
+		if tc.Order == "target-first" {
+			obs.Up.AfterEOF = n
+		}
+		if err != nil {
+			obs.Up.WriteErr = errKind(err)
+			if inCW {
+				obs.Up.WriteErr = "closewrite: " + errKind(err)
+			}
 			return
 		}
 		obs.Up.Fin = true
@@ -654,13 +670,14 @@ func (e *env) runTunnel(tc *tunnelCase, stall, limit time.Duration) *tunnelObs {
 				}
 				tick()
 			}
-			n, err := writeSegs(fe.conn, down[co:tc.Down1], tc.DownSegs, tc.Pause, tick)
-			downSent += n
-			if err != nil {
-				obs.Down.WriteErr = errKind(err)
-				return
-			}
+			last, lastPause := down[co:tc.Down1], tc.Pause // the bytes the half-close follows
 			if tc.Order == "client-first" {
+				n, err := writeSegs(fe.conn, last, tc.DownSegs, tc.Pause, tick)
+				downSent += n
+				if err != nil {
+					obs.Down.WriteErr = errKind(err)
+					return
+				}
 				if tc.NoWaitEOF {
 					if !waitFor(clientFin) || !waitFor(upAll) {
 						return
@@ -671,17 +688,18 @@ func (e *env) runTunnel(tc *tunnelCase, stall, limit time.Duration) *tunnelObs {
 				if tc.HoldMs > 0 {
 					holdFor(time.Duration(tc.HoldMs)*time.Millisecond, tick)
 				}
-				n, err = writeSegs(fe.conn, down[tc.Down1:], tc.DownSegs, false, tick)
-				downSent += n
-				obs.Down.AfterEOF = n
-				if err != nil {
-					obs.Down.WriteErr = errKind(err)
-					return
-				}
+				last, lastPause = down[tc.Down1:], false
 			}
-			obs.Down.finAt = time.Now()
-			if err := fe.closeWrite(); err != nil {
-				obs.Down.WriteErr = "closewrite: " + errKind(err)
+			n, inCW, err := writeLast(fe.conn, last, tc.DownSegs, lastPause, tick, tc.DownTail, tc.DownGapMs, &obs.Down.finAt, fe.closeWrite)
+			downSent += n
+			if tc.Order == "client-first" {
+				obs.Down.AfterEOF = n
+			}
+			if err != nil {
+				obs.Down.WriteErr = errKind(err)
+				if inCW {
+					obs.Down.WriteErr = "closewrite: " + errKind(err)
+				}
 				return
 			}
 			obs.Down.Fin = true
@@ -690,6 +708,16 @@ func (e *env) runTunnel(tc *tunnelCase, stall, limit time.Duration) *tunnelObs {
 	}()
 
 	wg.Wait()
+	if e.spec.clientJoin {
+		obs.upReads = e.readsOf(tcpConn.LocalAddr().String())
+	}
+	if e.spec.base == "cf-dataeof" {
+		farMu.Lock()
+		if farConn != nil {
+			obs.downReads = e.readsOf(farConn.RemoteAddr().String())
+		}
+		farMu.Unlock()
+	}
 	// what was actually offered to the tunnel
 	obs.Up.Sent, obs.Down.Sent = upSent, downSent
 	obs.Up.sent, obs.Down.sent = up[:upSent], down[:downSent]
